@@ -5,6 +5,19 @@ let show_dec h = function
   | FPanic _ -> Printf.printf "%s panic\n" h
   | FFuel -> Printf.printf "%s fuel\n" h
 
+(* results of the translated readers: both components are Z *)
+let show_tdec h = function
+  | FOk ((a, b), rest) -> Printf.printf "%s ok %s %s %d\n" h (dec_of_z a) (dec_of_z b) (List.length rest)
+  | FErr _ -> Printf.printf "%s err\n" h
+  | FPanic _ -> Printf.printf "%s panic\n" h
+  | FFuel -> Printf.printf "%s fuel\n" h
+let n_of_z = function Zpos p -> Npos p | _ -> N0
+let show_tenc h = function
+  | GoRet ((nn, e), o) ->
+      if e = N0 then Printf.printf "%s %s %s\n" h (hex_of_bytes (List.map n_of_z o)) (dec_of_z nn)
+      else Printf.printf "%s err\n" h
+  | GoPanic -> Printf.printf "%s panic\n" h
+
 let () = iter_lines (fun line ->
   match split_ws line with
   | ["enc32"; v] ->
@@ -15,4 +28,10 @@ let () = iter_lines (fun line ->
       Printf.printf "enc64 %s %s %s\n" v (hex_of_bytes (write64 z)) (dec_of_n (len64 z))
   | ["dec32"; h] -> show_dec ("dec32 " ^ h) (run_flat read32 (bytes_of_hex h))
   | ["dec64"; h] -> show_dec ("dec64 " ^ h) (run_flat read64 (bytes_of_hex h))
+  (* phase 4: the definitions TRANSLATED from the Go source (coq/Gen/C05gen.v) on the same kind of input *)
+  | ["tdec32"; br; h] -> show_tdec ("tdec32 " ^ br ^ " " ^ h) (run_flat (packet_VarInt_ReadFrom_io (br = "1")) (bytes_of_hex h))
+  | ["tdec64"; br; h] -> show_tdec ("tdec64 " ^ br ^ " " ^ h) (run_flat (packet_VarLong_ReadFrom_io (br = "1")) (bytes_of_hex h))
+  | ["trb"; br; h] -> show_tdec ("trb " ^ br ^ " " ^ h) (run_flat (packet_readByte_io (br = "1")) (bytes_of_hex h))
+  | ["tenc32"; v] -> show_tenc ("tenc32 " ^ v) (packet_VarInt_WriteTo_io (z_of_dec v))
+  | ["tenc64"; v] -> show_tenc ("tenc64 " ^ v) (packet_VarLong_WriteTo_io (z_of_dec v))
   | _ -> Printf.printf "?? %s\n" line)
